@@ -232,10 +232,22 @@ func cmdCheck(args []string) int {
 			} else {
 				caseSplit := func(tmo int) bool {
 					// one query per path into the merged block (all must be unsat)
-					var secs float64
+					// the cases are independent: solve them concurrently
+					rs := make([]SolverResult, len(o.Cases))
+					var cwg sync.WaitGroup
 					for ci, c := range o.Cases {
-						r, _ := solve(o.queryWith(c), workDir, fmt.Sprintf("%s_case%d", name, ci), tmo, false)
-						secs += r.Secs
+						cwg.Add(1)
+						go func(ci int, c Term) {
+							defer cwg.Done()
+							rs[ci], _ = solve(o.queryWith(c), workDir, fmt.Sprintf("%s_case%d", name, ci), tmo, false)
+						}(ci, c)
+					}
+					cwg.Wait()
+					var secs float64
+					for _, r := range rs {
+						if r.Secs > secs {
+							secs = r.Secs
+						}
 						if r.Status != "unsat" {
 							return false
 						}
